@@ -16,7 +16,7 @@ type checkCfg struct {
 	// RefOnHang: on a reproducible wall-clock timeout, re-execute the case with only the
 	// reference side (VERIF_REFERENCE_ONLY=1); if that hangs too, the hang is shared by
 	// fresh and reused objects and says nothing about this property.
-	RefOnHang bool
+	RefOnHang   bool
 	Rule        string
 	Assumptions []string
 	Real        []string
@@ -89,5 +89,23 @@ func init() {
 		Stub:        []string{"the disk (faultdisk.File behind opentype.Resource)"},
 		TimeMeasure: "ticks = instrumented yield points executed (function entries + loop iterations)",
 		StateRule:   "distinct (container kind, faulted table tag, fault kind, outcome in {open-error, opened}) tuples",
+	}
+}
+
+func init() {
+	checks["C17"] = &checkCfg{
+		Property: "C17", Engine: "schedsim", Level: "exploration", Instrument: true, Race: true,
+		Runs: map[string]int{"quick": 1920, "thorough": 64000}, Chunk: 8, RunTimeoutS: 300,
+		Rule: "one case = one simulation: 2-6 (thorough: up to 64) tasks, real goroutines, share 1-3 freshly parsed corpus fonts (TrueType, CFF, CFF2, variable, AAT, bitmap, SVG) and run seeded programs over their own faces/shapers/buffers/segmenters/wrappers/font maps plus read-only calls on the shared *font.Font, under a schedule decided by the case: sweep plans (runs come in blocks of 16 that share fonts, programs and the parked task A; A is parked at 16 evenly spaced points of its program while all other tasks run to completion, then resumes), random plans (1-12 seeded switch points, some clustered inside one pair of calls) and sequential plans. The race detector sees the tasks as concurrent for their whole lifetime (the hand-off creates no happens-before edge). distinct = distinct hash of the case; non-trivial = at least one hand-off landed inside a library call (between two tasks, not at task start/end).",
+		Assumptions: []string{
+			"the Go race detector's happens-before model decides 'data race'; a conflicting access is only reported while the earlier one is inside the other goroutine's history window (calibrated with the canary on every invocation; sweep plans park tasks so that every part of a program is within the window of some park point of its block)",
+			"GOMAXPROCS=1 and asyncpreemptoff=1: the physical interleaving is the plan's; hardware memory-model effects are not executed",
+			"solo reference runs use separately parsed fonts, so no first-use memo of the shared fonts is filled before the concurrent phase",
+			"operations that block on real synchronisation (UseSystemFonts -> sync.Once) are not part of task programs",
+		},
+		Real:        []string{"the whole library, instrumented with yield points at every function entry and loop head (go/ast text splice), built with -race", "font.NewFace/Face queries", "harfbuzz.NewFont/Buffer.Shape", "shaping.HarfbuzzShaper/Segmenter/LineWrapper", "fontscan.FontMap (AddFace/SetQuery/ResolveFace)"},
+		Stub:        []string{"the goroutine scheduler (cooperative baton, seeded plan)", "logger (no-op)"},
+		TimeMeasure: "ticks = instrumented yield points executed during the concurrent phases",
+		StateRule:   "distinct unordered pairs of operation kinds that ran in different tasks of one simulation, and (plan kind, #tasks bucket)",
 	}
 }
